@@ -43,6 +43,7 @@ type Program struct {
 	srcCache   map[string][]byte
 	concTypes  []types.Type
 	SkippedSpecs []string
+	Theorems   []*TheoremOb
 }
 
 // goEnv: the environment for `go list` on /repo (offline, go1.26.8, module mode).
@@ -110,7 +111,7 @@ func LoadProgram(repo string, patterns []string) (*Program, error) {
 		if _, ok := p.PkgByPath[pk.PkgPath]; !ok {
 			p.PkgByPath[pk.PkgPath] = pk
 		}
-		if _, ok := p.PkgByName[pk.Name]; !ok {
+		if old, ok := p.PkgByName[pk.Name]; !ok || (!strings.HasPrefix(old.PkgPath, modulePath+"/") && strings.HasPrefix(pk.PkgPath, modulePath+"/")) {
 			p.PkgByName[pk.Name] = pk
 		}
 	})
